@@ -138,13 +138,86 @@ def run(chk):
     model_leg(chk)
 
 
+def norm_operand(a):
+    if a is None:
+        return ("void",)
+    k = a.get("k")
+    if k == "loc":
+        return ("loc", a["i"])
+    if k == "obj":
+        return ("obj", a["n"])
+    if k in ("const", "enum"):
+        return ("const",)
+    return ("void",)
+
+
+def norm_real(code):
+    out = []
+    for b in code["blocks"]:
+        sts = []
+        for st in b["st"]:
+            rv = st.get("rv", {})
+            k = rv.get("k")
+            ops = {"copy": ["a"], "un": ["a"], "bin": ["a", "b"], "rprop": ["o"]}.get(k)
+            sts.append((st["k"], st.get("l"), k, tuple(norm_operand(rv.get(x)) for x in ops) if ops else ("?",)))
+        tm = b["tm"]
+        out.append((tuple(sts), (tm["k"], tm.get("t", -1), tm.get("f", -1), norm_operand(tm.get("c")) if tm["k"] == "brc" else ("void",),
+                                 norm_operand(tm.get("a")) if tm["k"] == "ret" else ("void",))))
+    return out
+
+
+def norm_model(blocks):
+    out = []
+    for b in blocks:
+        sts = []
+        for st in b["st"]:
+            rv = st["rv"]
+            ops = {"copy": ["a"], "un": ["a"], "bin": ["a", "b"], "rprop": ["o"]}[rv["k"]]
+            sts.append((st["k"], st["l"], rv["k"], tuple(norm_operand(rv[x]) for x in ops)))
+        tm = b["tm"]
+        out.append((tuple(sts), (tm["k"], tm["t"], tm["f"], norm_operand(tm["c"]) if tm["k"] == "brc" else ("void",), norm_operand(tm["a"]) if tm["k"] == "ret" else ("void",))))
+    return out
+
+
 def model_leg(chk):
-    """M: the builder model satisfies the predicates for all control skeletons (design-level statement)."""
-    if not os.path.exists(os.path.join(os.path.dirname(os.path.dirname(os.path.abspath(__file__))), "spec", "MCTirBuilder.tla")):
-        return
-    r = tlc("MCTirBuilder", env={"LIMIT": 60 if chk.tier == "quick" else 400}, workers=8, timeout=1800, heap="8g", seed=chk.seed, coverage=False)
+    """M: the builder model (TirBuilder.tla) satisfies the IR predicates on every control skeleton -- a design-level statement --
+    and the IR it builds is compared block by block with the real builder's IR for the same source (model drift report).
+    Neither produces a VIOLATION: the verdict about the code comes from the V leg above."""
+    r = tlc("MCTirBuilder", env={"LIMIT": 40 if chk.tier == "quick" else 400}, workers=8, timeout=3000, heap="8g", seed=chk.seed, coverage=False)
     chk.add_tlc(r)
-    chk.cov["model_check_builder"] = {"distinct_states": r.distinct, "ok": r.ok, "invariant_violated": r.invariant}
+    built = r.printed("BUILT")
+    info = {"skeletons": len(built), "model_invariants_hold": r.ok, "invariant_violated": r.invariant}
     if not r.ok:
-        # a design-level counterexample is information, not a verdict about the code (DESIGN 2): the V leg decides
-        log("C06 M leg: builder model violates %s (reported in evidence, verdict comes from the V leg)" % r.invariant)
+        log("C06 M leg: the builder model violates %s (design-level counterexample, reported in the evidence)" % r.invariant)
+    # drift: the same programs through the real builder, as binding and as handler
+    reqs, exp = [], {}
+    for n, x in enumerate(built):
+        if not x["ok"]:
+            continue
+        b = dict(x["prog"], prop="ival")
+        reqs.append({"id": "b%d" % n, "src": P.binding_doc([b])[0], "type_name": "Doc", "modes": ["generate"], "ir": True})
+        reqs.append({"id": "h%d" % n, "src": P.handler_doc([handler_of(x["prog"]["body"])]), "type_name": "Doc", "modes": ["generate"], "ir": True})
+        exp["b%d" % n] = exp["h%d" % n] = norm_model(x["blocks"])
+    res = translate(reqs, metatypes=[VERIF_METATYPES])
+    same = differ = rejected = 0
+    first = None
+    for q in reqs:
+        run_ = res[q["id"]]["generate"]
+        irs = [ir for ir in run_.get("ir", []) if ir["kind"] in ("binding", "callback") and ir["obj"] in ("t0", "s0")]
+        if run_.get("panic") or not irs or (q["id"].startswith("b") and not P.is_accepted(run_)):
+            rejected += 1          # ill-typed as a binding (e.g. int and void returns): the real builder has no finished IR
+            continue
+        got = norm_real(irs[0]["code"])
+        if got == exp[q["id"]]:
+            same += 1
+        else:
+            differ += 1
+            if first is None:
+                first = {"qml": q["src"][-400:], "model": str(exp[q["id"]])[:1500], "real": str(got)[:1500]}
+    info.update({"compared_with_real_ir": same + differ, "identical": same, "different": differ, "no_real_ir": rejected})
+    if first:
+        info["first_difference"] = first
+        log("C06 M leg: model drift on %d of %d bodies (the model no longer transcribes the builder; reported, not a verdict)" % (differ, same + differ))
+    chk.cov["model_check_builder"] = info
+
+
